@@ -126,6 +126,17 @@ func c08adapters(c *Ctx) {
 				slice(x.X)
 			case *ssa.Slice:
 				slice(x.X)
+			case *ssa.Alloc:
+				// the array behind a variadic pack (append(list, v)): what was stored into its cells
+				for _, r := range *x.Referrers() {
+					if ia, ok := r.(*ssa.IndexAddr); ok {
+						for _, r2 := range *ia.Referrers() {
+							if st, ok := r2.(*ssa.Store); ok && st.Addr == ssa.Value(ia) {
+								slice(st.Val)
+							}
+						}
+					}
+				}
 			case *ssa.MakeInterface:
 				slice(x.X)
 			case *ssa.ChangeType:
